@@ -309,6 +309,26 @@ let handle (line : string) : unit =
           | Validate.EIncorrectRecurrentMixin -> "IncorrectRecurrentMixinClass"
           | Validate.EIncorrectParamsRecurrentNode -> "IncorrectParamsRecurrentNode"); pr "\"");
      pr "}"
+   | S (A "viewer" :: f) ->
+     let nodes = L.map node_ (field "nodes" f) in
+     let onat = function A "none" -> None | x -> Some (nat_ x) in
+     let info_ = function
+       | S [nm; vb; ty; doc; ge] -> { Viewer.ni_name = nat_ nm; ni_verbose = nat_ vb; ni_type = onat ty; ni_doc = onat doc; ni_generic = bool_ ge }
+       | _ -> failwith "info" in
+     let cfg = viewer_case (L.map fst nodes) (L.map info_ (field "infos" f)) in
+     let ptype = function
+       | Viewer.VTSwitch -> pr "\"switch\"" | Viewer.VTOneOf -> pr "\"input_one_of\""
+       | Viewer.VTDeclared t -> pr "[\"decl\","; pi (int_of_nat t); pr "]" | Viewer.VTNone -> pr "null" in
+     let ponat = function None -> pr "null" | Some n -> pi (int_of_nat n) in
+     pr "{\"nodes\":";
+     plist (fun n -> pr "["; pkey n.Viewer.vn_id; pr ","; pbool n.Viewer.vn_virtual; pr ","; pbool n.Viewer.vn_generic; pr ",";
+             ptype n.Viewer.vn_type; pr ",";
+             (match n.Viewer.vn_data with
+              | None -> pr "null"
+              | Some ((nm, vb), doc) -> pr "["; pi (int_of_nat nm); pr ","; pi (int_of_nat vb); pr ","; ponat doc; pr "]");
+             pr "]") cfg.Viewer.vc_nodes;
+     pr ",\"edges\":"; plist (fun e -> pr "["; pkey e.Viewer.ve_source; pr ","; pkey e.Viewer.ve_target; pr "]") cfg.Viewer.vc_edges;
+     pr ",\"types\":"; plist ptype cfg.Viewer.vc_types; pr "}"
    | S (A "build" :: f) ->
      let nodes = L.map node_ (field "nodes" f) in
      pgraph (built_of (L.map fst nodes))
